@@ -15,6 +15,7 @@ from ..derivation import Graph, Cap
 from ..obs import obs, fmt
 
 PID = "C15"
+ON_LIBRARY_RAISE = "skip"  # the statement is about values that are produced; a raising parse is C01's finding
 LEVEL = "model_checking"
 RULE = (
     "One evaluation = one (text, reference time): the derivation graph is built exhaustively (states = partial productions keyed by value+span of every element, "
